@@ -208,9 +208,12 @@ impl Mp4Track {
     }
 
     pub fn duration(&self) -> Duration {
-        Duration::from_micros(
-            self.trak.mdia.mdhd.duration * 1_000_000 / self.trak.mdia.mdhd.timescale as u64,
-        )
+        let timescale = self.trak.mdia.mdhd.timescale;
+        if timescale == 0 {
+            return Duration::ZERO;
+        }
+        let micros = self.trak.mdia.mdhd.duration as u128 * 1_000_000 / timescale as u128;
+        Duration::from_micros(u64::try_from(micros).unwrap_or(u64::MAX))
     }
 
     pub fn bitrate(&self) -> u32 {
